@@ -156,6 +156,93 @@ class AddVariableValue(Contract):
         return judge(nat)
 
 
+class FinalizeVariablesInit(Contract):
+    name = f"{SB}.finalize_variables_init"
+    prop = ("C12",)
+    top_level = True
+    cases = tuple((u0, u1) for u0 in ("day", "month", "year") for u1 in ("day", "month", "year"))
+    descr = ("every buffered (period, array) of a variable of the population is handed to the variable's holder exactly once, with the "
+             "buffered array, and a period that is shorter - smaller (unit weight, size) - is handed over before a longer one, so that "
+             "values declared on longer periods only fill what nothing more specific declared")
+    inline = (f"{SB}.get_count", f"{SB}.get_ids", "openfisca_core.periods.helpers.key_period_size")
+
+    def setup(self, I, ctx, case):
+        from . import c17_storage as S
+        from .c04_periods import sym_period
+        R = I.resolve_qualified
+        N = ctx.fresh_int("count")
+        ctx.assume(N >= 1)
+        ps = [sym_period(I, ctx, case[0], "p0"), sym_period(I, ctx, case[1], "p1")]
+        ctx.assume(z3.Not(B._zb(B.eq_formula(I, ctx, ps[0], ps[1]))))
+        F = [z3.Function(ctx.fresh_name("VALS%d" % k), z3.IntSort(), z3.RealSort()) for k in range(2)]
+        arrs = [nparr.NArr(N, lambda j, f=f: Sym(f(B._z(j))), "float", "buffered%d" % k) for k, f in enumerate(F)]
+        from .c19_dump import FileNameToken
+        tk = FileNameToken()
+        toks = [tk.outcomes(I, ctx, {"self": p}, None)[1] for p in ps]
+        buf = DictVal()
+        buf.sym = [[toks[0], arrs[0]], [toks[1], arrs[1]]][::-1]       # insertion order p0, p1 (sym keeps the newest first)
+        var = Obj(R("openfisca_core.variables.variable.Variable"), {"name": "v", "end": None}, label="var:v")
+        holder = Obj(R("openfisca_core.holders.holder.Holder"), {"variable": var}, label="holder")
+        ent = Obj(I.builtins["object"], {"plural": "persons", "key": "person"}, label="entity")
+        pop = Obj(R("openfisca_core.populations.population.Population"), {"entity": ent, "count": 0, "ids": ListVal([])}, label="population")
+        ids = ListVal(["ids"])
+        builder = Obj(R(SB), {"input_buffer": dict_of([("v", buf)]), "entity_counts": dict_of([("persons", B.wrap(N))]),
+                              "entity_ids": dict_of([("persons", ids)]), "axes_entity_counts": DictVal(), "axes_entity_ids": DictVal(),
+                              "memberships": DictVal(), "roles": DictVal(), "axes_memberships": DictVal(), "axes_roles": DictVal()}, label="builder")
+        ctx.ghost["holder"] = holder
+        return {"self": builder, "population": pop, "__ps": ps, "__arrs": arrs, "__F": F, "__N": N, "__holder": holder, "__ids": ids, "__case": case}
+
+    @staticmethod
+    def local_contracts():
+        from .c19_dump import FileNameToken, period_of_token_site
+        c = period_of_token_site()
+        P = "openfisca_core.populations._core_population.CorePopulation"
+        H = "openfisca_core.holders.holder.Holder"
+        return {FileNameToken.name: FileNameToken(), c.name: c,
+                f"{P}.get_holder": rec(f"{P}.get_holder", "get_holder", [("return", lambda I, ctx, a: ctx.ghost["holder"])]),
+                f"{H}.set_input": rec(f"{H}.set_input", "set_input", [("return", None)])}
+
+    def post(self, I, ctx, a, out, old):
+        ps, arrs, F, N = a["__ps"], a["__arrs"], a["__F"], a["__N"]
+        pop = a["population"]
+        if out[0] != "return":
+            return [("no-exception", False)]
+        calls = log_of(ctx, "set_input")
+        res = [("population-gets-its-count-and-ids", B._zb(B.eq_formula(I, ctx, pop.fields["count"], B.wrap(N))) if not isinstance(pop.fields["count"], int) else False),
+               ("population-gets-the-declared-ids", pop.fields["ids"] is a["__ids"]),
+               ("one-hand-over-per-buffered-period", len(calls) == 2 and all(c["args"]["self"] is a["__holder"] for c in calls))]
+        if len(calls) != 2:
+            return res
+        j = ctx.fresh_int("j")
+        rng = z3.And(j >= 0, j < N)
+        first_is_p0 = B._zb(B.eq_formula(I, ctx, calls[0]["args"]["period"], ps[0]))
+        for k, c in enumerate(calls):
+            for m in range(2):
+                hit = B._zb(B.eq_formula(I, ctx, c["args"]["period"], ps[m]))
+                arr = c["args"]["array"]
+                res.append((f"hand-over-{k + 1}-carries-the-array-buffered-for-its-period",
+                            z3.Implies(z3.And(hit, rng), z3.And(B._z(arr.n) == N, B.zreal(arr.elem(j)) == F[m](j)))))
+        res.append(("both-periods-are-handed-over", z3.Or(z3.And(first_is_p0, B._zb(B.eq_formula(I, ctx, calls[1]["args"]["period"], ps[1]))),
+                                                          z3.And(B._zb(B.eq_formula(I, ctx, calls[0]["args"]["period"], ps[1])),
+                                                                 B._zb(B.eq_formula(I, ctx, calls[1]["args"]["period"], ps[0]))))))
+        W = {"day": 100, "month": 200, "year": 300}
+        w0, w1 = W[a["__case"][0]], W[a["__case"][1]]
+        s0, s1 = zi(ps[0].items[2]), zi(ps[1].items[2])
+        shorter0 = z3.Or(w0 < w1, z3.And(w0 == w1, s0 < s1)) if True else None
+        shorter1 = z3.Or(w1 < w0, z3.And(w0 == w1, s1 < s0))
+        res.append(("the-shorter-period-is-handed-over-first", z3.And(z3.Implies(shorter0, first_is_p0), z3.Implies(shorter1, z3.Not(first_is_p0)))))
+        return res
+
+    def probes(self, case):
+        if case != ("month", "month"):
+            return []
+        return [{"callee": self.name, "script": NATIVE, "mode": "two-periods", "first": a, "second": b}
+                for a, b in (("month:2018-01:3", "month:2018-01:24"), ("month:2018-01:24", "month:2018-01:3"), ("month:2018-01:2", "month:2018-01:10"))]
+
+    def judge_native(self, I, case, call, nat):
+        return judge(nat)
+
+
 NATIVE = "import sys; sys.path.insert(0, '/verif/native')\nimport c12_replay\noutcome = c12_replay.run(call)\n"
 
 
@@ -167,4 +254,4 @@ def judge(nat):
     return ("satisfies", "as specified") if nat["value"].get("ok") else ("violates", str(nat["value"])[:400])
 
 
-CONTRACTS = [AddVariableValue()]
+CONTRACTS = [AddVariableValue(), FinalizeVariablesInit()]
